@@ -25,6 +25,7 @@ class GCase:
         self.mutates = set(mutates)   # inputs the contract allows the function to overwrite
         self.note = note
         self.canary_spec = None       # a deliberately wrong contract (must be refuted)
+        self.fix = None               # precondition on drawn inputs (witness search, cross-check): fix(tensors, sizes, rnd)
 
 
 def cbuild(shape, f):
@@ -51,6 +52,7 @@ def run_cases(ctx, cases, prefix, canary=None, only=None):
     vc = astvc.VC(ctx)
     vc.max_paths = 200
     done = []
+    sampled = set()
     for case in cases:
         if only and case.name not in only:
             continue
@@ -98,6 +100,12 @@ def run_cases(ctx, cases, prefix, canary=None, only=None):
                     vc._record(nm + "/returns one tensor", "violated", "got %r" % (type(res).__name__,), None, 0.0, "structural")
                 else:
                     G.check_eq(vc, nm + "/equals the contract for every shape", res, want)
+            # sampled cross-check of the front end itself: the real code on float tensors against the contract evaluated
+            # numerically (the symbolic run proved code == contract through the primitive models; a disagreement here
+            # means a model of a torch primitive is wrong -> checker defect, exit 3, never a verdict)
+            if not canary and want is not None and vc.pos == len(vc.prefix) and case.name not in sampled:
+                sampled.add(case.name)
+                _cross_check(ctx, vc, case, want)
             # frame: inputs the contract does not hand over are not written, and still hold their values
             G.check_frame(vc, nm + "/read-only inputs are not written")
             for n, t in ins.items():
@@ -105,6 +113,7 @@ def run_cases(ctx, cases, prefix, canary=None, only=None):
                     G.check_eq(vc, nm + "/input %s unchanged" % n, t, before[n])
         p0 = vc.paths
         pre = "generic/%s/" % case.name
+        G.INPUT_FIX[0] = case.fix
         try:
             npaths = G.explore(vc, thunk, case.name)
             und = [k for k, v in vc.results.items() if k.startswith(pre) and any(x[0] == "undecided" for x in v)
@@ -134,6 +143,40 @@ def run_cases(ctx, cases, prefix, canary=None, only=None):
     for a in sorted(G.ASSUMED):
         ctx.assumed.add(a)
     return done
+
+
+def _cross_check(ctx, vc, case, want):
+    import random
+    rec = getattr(ctx, "gconf", None)
+    if rec is None:
+        rec = ctx.gconf = {"calls": 0, "mismatches": []}
+    wants = list(want) if isinstance(want, (tuple, list)) else [want]
+    rnd = random.Random(len(case.name))
+    try:
+        for sizes in G._sizes_from_model(vc, 2):
+            tensors = G.draw_inputs(sizes, rnd)
+            with torch._C.DisableTorchFunctionSubclass():
+                pass
+            real_in = {n: torch.tensor(tensors[n], dtype=torch.double) for n, _s, _d in case.inputs}
+            saved = (torch.zeros, torch.ones)
+            try:
+                torch.zeros, torch.ones = G.REAL_FACTORIES
+                res = case.call(**real_in)
+            finally:
+                torch.zeros, torch.ones = saved
+            ress = list(res) if isinstance(res, (tuple, list)) else [res]
+            for j, (r, w) in enumerate(zip(ress, wants)):
+                if isinstance(w, str):
+                    exp = np.zeros(tuple(r.shape))
+                else:
+                    exp = G.eval_val(w, sizes, tensors)
+                got = r.detach().numpy() if isinstance(r, torch.Tensor) else np.asarray(float(r))
+                rec["calls"] += 1
+                if got.shape != exp.shape or not np.allclose(got, exp, rtol=1e-8, atol=1e-10):
+                    rec["mismatches"].append(("generic case %s component %d at sizes %s" % (case.name, j, sizes),
+                                              "real code %s vs contract %s" % (np.ravel(got)[:3], np.ravel(exp)[:3])))
+    except (Unmodelled, KeyError, OverflowError, ZeroDivisionError, ValueError) as e:
+        rec.setdefault("skipped", []).append((case.name, repr(e)[:120]))
 
 
 def replay_case(cases, o):
